@@ -140,8 +140,8 @@ def analyse(facts, tier):
                     why='return end() under !slot after allocate_slot()' if fail and fail[1] else 'the failing return is not tied to an empty free list'))
     for fn in (rt, ex):
         seq = []
-        for b, j, st in fn.cfg.stmts():
-            for x in walk(st['s']):
+        for b, j, st, s_, owner, bind in with_helpers(facts, fn):      # the common tail of the two overloads may be a private helper
+            for x in walk(s_):
                 if short(x.get('callee', '')) == 'bucket_add':
                     seq.append('add')
                 if is_incdec(x) and x['op'] == '++' and short(strip(x['e']).get('n', '')) == 'm_size':
@@ -288,6 +288,18 @@ def analyse(facts, tier):
                             kk = key_of(assign_parts(strip(sc['e']))[0])
                             if kk is not None:
                                 n2 = frozenset(set(n2) | {kk}) if k == 0 else frozenset(set(n2) - {kk})
+                        else:
+                            # a plain null test of a pointer: `p`, `!p`, `p != NULL`, `p == NULL`
+                            tst, null_on_true = sc, False
+                            while tst.get('k') == 'UnaryOperator' and tst.get('op') == '!':
+                                tst, null_on_true = strip(tst['e']), not null_on_true
+                            if tst.get('k') == 'BinaryOperator' and tst.get('op') in ('==', '!=') and is_null_expr(tst.get('r'), frozenset()):
+                                null_on_true = null_on_true != (tst['op'] == '==')
+                                tst = strip(tst['l'])
+                            kk = key_of(tst) if tst.get('k') in ('DeclRefExpr', 'MemberExpr') else None
+                            if kk is not None and (tst.get('t') or {}).get('p'):
+                                is_null_edge = (k == 0) == null_on_true
+                                n2 = frozenset(set(n2) | {kk}) if is_null_edge else frozenset(set(n2) - {kk})
                     new = (a2, n2)
                     if new not in states.setdefault(t, set()):
                         states[t].add(new)
@@ -391,16 +403,31 @@ def analyse(facts, tier):
             for x in calls_in(st['s']):
                 if short(callee_name(x)) == 'bucket_add' and len(x.get('a', [])) == 2:
                     a = strip(x['a'][1])
-                    defs = []
-                    for b2, j2, st2 in fn.cfg.stmts():
-                        for y in walk(st2['s']):
-                            ap = assign_parts(y)
-                            if ap and strip(ap[0]).get('id') == a.get('id'):
-                                defs.append(short(callee_name(strip(ap[1]))))
-                        if st2['s'].get('k') == 'DeclStmt':
-                            for v in st2['s']['decls']:
-                                if v['id'] == a.get('id') and v.get('init') is not None:
-                                    defs.append(short(callee_name(strip(v['init']))))
+                    def defs_of(g, var):
+                        out_ = []
+                        for b2, j2, st2 in g.cfg.stmts():
+                            for y in walk(st2['s']):
+                                ap = assign_parts(y)
+                                if ap and strip(ap[0]).get('id') == var.get('id'):
+                                    out_.append(short(callee_name(strip(ap[1]))))
+                            if st2['s'].get('k') == 'DeclStmt':
+                                for v in st2['s']['decls']:
+                                    if v['id'] == var.get('id') and v.get('init') is not None:
+                                        out_.append(short(callee_name(strip(v['init']))))
+                        return out_
+                    defs = defs_of(fn, a)
+                    pids = {p_['id']: i_ for i_, p_ in enumerate(fn.params)}
+                    if a.get('id') in pids:
+                        # the slot is handed in by the callers of this (private) function: what they pass is what counts
+                        for g in facts.all_fns():
+                            if not g.name.startswith(BM + '::') or g.tree is None:
+                                continue
+                            for b3, j3, st3 in g.cfg.stmts():
+                                for y in calls_in(st3['s']):
+                                    if callee_name(y) == fn.name and len(y.get('a', [])) > pids[a['id']]:
+                                        arg = strip(y['a'][pids[a['id']]])
+                                        dd = defs_of(g, arg) if arg.get('k') == 'DeclRefExpr' else []
+                                        defs += dd if dd else ['?']
                     srcs.append((fn.name, st['loc'], defs))
     for fname, loc, defs in srcs:
         fresh = [d for d in defs if d in ('allocate_slot', 'ensure_allocate_slot')]
